@@ -393,7 +393,8 @@ func (f *Fragment) GetSampleInterval(trex *TrexBox, startSampleNr, endSampleNr u
 	tfhd, trun := traf.Tfhd, traf.Trun
 	moofStartPos := moof.StartPos
 	_ = trun.AddSampleDefaultValues(tfhd, trex)
-	var baseOffset uint64
+	// The default is moofStartPos according to Section 8.8.7.1 (same rule as in GetFullSamples)
+	baseOffset := moofStartPos
 	if tfhd.HasBaseDataOffset() {
 		baseOffset = tfhd.BaseDataOffset
 	} else if tfhd.DefaultBaseIfMoof() {
